@@ -1,5 +1,6 @@
 //! Shared machinery of the correspondence harness: PRNG, hex list codec, the pipe to the
 //! extracted-model driver, the per-run report.
+pub mod urlrec;
 use std::collections::{BTreeMap, HashSet};
 use std::io::{BufRead, BufReader, Write};
 use std::process::{Child, ChildStdin, ChildStdout, Command, Stdio};
